@@ -369,7 +369,7 @@ def interp(fn, args, counter=None):
 # ------------------------------------------------------------------------------------------------
 
 STRUCT_KINDS = ('cond', 'switch', 'fori', 'while')
-CP_SAME_NODE_TWICE = False  # nnx.cached_partial(f, m, m) raises KeyError at the first call (reported)
+CP_SAME_NODE_TWICE = True  # nnx.cached_partial(f, m, m) raised KeyError before fix 7640b7e (corpus/C04/cp_same_node_twice.json)
 
 
 def classify(kind, e):
@@ -807,7 +807,73 @@ def strip_arrays(v):
   return v
 
 
+def gen_twin_case(rng):
+  """two structurally identical nodes (graphdefs equal up to `outer_index`): permuted loop carries, attribute swaps in
+  one branch only, swapped arguments on a cache hit -- the places where only the outer_index stamps tell objects apart"""
+  vt = VT_MRO[rng.choice(VT_NAMES)]
+  with_vars = rng.random() < 0.6
+  if with_vars:
+    heap = [{'cls': 'A', 'attrs': [['w', {'r': 2}], ['b', {'r': 3}]]}, {'cls': 'A', 'attrs': [['w', {'r': 4}], ['b', {'r': 5}]]}]
+    heap += [{'vt': vt, 'val': rng.randrange(0, 10), 'md': []} for _ in range(4)]
+  else:
+    heap = [{'cls': 'A', 'attrs': [['w', {'a': rng.randrange(0, 5)}], ['b', {'a': rng.randrange(5, 9)}]]} for _ in range(2)]
+  if rng.random() < 0.4:
+    heap.append({'cls': 'B', 'attrs': [['l', {'r': 0}], ['r', {'r': 1}]]})
+  args = [{'r': 0}, {'r': 1}]
+  kind = rng.choice(['jit', 'cond', 'switch', 'fori', 'while', 'cached_partial', 'remat'])
+  if kind == 'cached_partial' and not with_vars:
+    kind = 'jit'
+  off = 1 if kind == 'fori' else 0
+  tgt = off + rng.randrange(2)
+
+  def swap_fn():
+    b = [{'op': 'getAttr', 'r': tgt, 'k': 'w'}, {'op': 'getAttr', 'r': tgt, 'k': 'b'}]
+    n = off + 2 + (1 if kind == 'while' else 0)
+    b += [{'op': 'setAttr', 'r': tgt, 'k': 'w', 'src': n + 1}, {'op': 'setAttr', 'r': tgt, 'k': 'b', 'src': n}]
+    return b, n + 2
+
+  def upd_fn():
+    n = off + 2 + (1 if kind == 'while' else 0)
+    if with_vars:
+      return [{'op': 'getAttr', 'r': tgt, 'k': 'w'}, {'op': 'readVar', 'r': n}, {'op': 'setVar', 'r': n, 'e': {'add': [{'r': n + 1}, {'c': rng.randrange(1, 5)}]}}], n + 2
+    return [{'op': 'getAttr', 'r': tgt, 'k': 'w'}, {'op': 'data', 'e': {'add': [{'r': n}, {'c': 1}]}}, {'op': 'setAttr', 'r': tgt, 'k': 'b', 'src': n + 1}], n + 2
+
+  def fn_of(body_n, ret):
+    body, n = body_n
+    return {'body': body + [{'op': 'data', 'e': {'c': 1}}], 'ret': ret if ret is not None else [n]}
+
+  case = {'kind': 'history', 'G': {'heap': heap}, 'aliased': len(heap) == 7 or len(heap) == 3}
+  steps = []
+  if kind in ('jit', 'remat', 'cached_partial'):
+    spec = {'kind': kind, 'fn': fn_of(swap_fn() if rng.random() < 0.6 else upd_fn(), None)}
+    steps = [{'call': args}, {'call': args}]
+    if kind == 'jit':
+      steps.append({'call': [args[1], args[0]]})
+  elif kind in ('cond', 'switch'):
+    a = fn_of(swap_fn() if rng.random() < 0.7 else upd_fn(), None)
+    b = fn_of(swap_fn() if rng.random() < 0.4 else upd_fn(), None)
+    spec = {'kind': 'cond', 't': a, 'f': b} if kind == 'cond' else {'kind': 'switch', 'fns': [a, b, a]}
+    steps = [{'call': args, 'i': rng.choice([0, 1])}, {'call': args, 'i': rng.choice([0, 1, 2])}]
+  elif kind == 'fori':
+    ret = [2, 1] if rng.random() < 0.6 else [1, 2]
+    spec = {'kind': 'fori', 'fn': fn_of(upd_fn() if rng.random() < 0.7 else swap_fn(), ret)}
+    steps = [{'call': args, 'i': 0, 'n': rng.choice([1, 2])}]
+  else:
+    args = args + [{'a': 0}]
+    ret = [1, 0] if rng.random() < 0.6 else [0, 1]
+    body, n = upd_fn() if rng.random() < 0.7 else swap_fn()
+    body = body + [{'op': 'data', 'e': {'add': [{'r': 2}, {'c': 1}]}}]
+    spec = {'kind': 'while', 'c': {'body': [{'op': 'data', 'e': {'lt': [{'r': 2}, {'c': 2}]}}], 'ret': [3]}, 'fn': {'body': body, 'ret': ret + [n]}}
+    steps = [{'call': args, 'n': WHILE_CAP}]
+  case['spec'] = spec
+  case['steps'] = steps
+  case['twin'] = True
+  return case
+
+
 def gen_case(rng, kind=None):
+  if kind is None and rng.random() < 0.1:
+    return gen_twin_case(rng)
   G = gen_graph(rng)
   heap = G['heap']
   kind = kind or rng.choices(['jit', 'remat', 'cond', 'switch', 'fori', 'while', 'cached_partial'], [38, 12, 10, 8, 12, 8, 12])[0]
@@ -906,6 +972,8 @@ def gen_case(rng, kind=None):
     steps.append(st)
     # advance the abstract heap with the eager semantics (to generate valid edits); stop the history on an error
     try:
+      if not abs_welltyped(spec, h, args, st.get('i', 0)):
+        raise AbsErr('typeError')
       abs_call(spec, h, args, st.get('i', 0), st.get('n', 0))
     except AbsErr as e:
       alive = False
@@ -935,6 +1003,28 @@ def gen_case(rng, kind=None):
   case['steps'] = steps
   case['aliased'] = aliased
   return case
+
+
+def abs_welltyped(spec, h, args, i):
+  """every branch / loop body is TRACED at every call, also the ones eager Python would not run: all of them must be
+  well-typed programs on the current heap (e.g. no `.value = …` on a graph node, which Python would accept)"""
+  kind = spec['kind']
+  progs = []
+  if kind == 'switch':
+    progs = [(f, args) for f in spec['fns']]
+  elif kind == 'cond':
+    progs = [(spec['t'], args), (spec['f'], args)]
+  elif kind == 'fori':
+    progs = [(spec['fn'], [{'a': wrap32(i)}] + list(args))]
+  elif kind == 'while':
+    progs = [(spec['c'], args), (spec['fn'], args)]
+  for f, a in progs:
+    try:
+      abs_run(f, copy.deepcopy(h), a)
+    except AbsErr as e:
+      if str(e) != 'attrError':
+        return False
+  return True
 
 
 def abs_call(spec, h, args, i, n):
@@ -998,7 +1088,7 @@ def check_cases(ctx, drv, cases, stream):
     ctx.count('transform', kind)
     ctx.count('calls_per_history', n_calls)
     ctx.count('aliased_args', bool(case.get('aliased')))
-    ctx.count('stream', stream)
+    ctx.count('stream', stream + ('-twin' if case.get('twin') else ''))
     for o in set(ops):
       ctx.count('ops_used', o)
     ctx.count('body_ops', min(len(ops), 12))
